@@ -440,4 +440,47 @@ theorem browserView_id (x : List Char) (h1 : '\r' ∉ x) (h2 : '\x00' ∉ x) : b
   unfold browserView normNewlines
   rw [nn_no_cr x h1, map_nulRepl_id x h2]
 
+/-! ### plain-text failure bodies are never sniffed as markup (round 2) -/
+
+def plainHead (c : Char) : Prop := isSniffWs c = false ∧ c ≠ '<'
+
+theorem digitChar_plain (k : Nat) (h : k < 10) : plainHead (Nat.digitChar k) := by
+  have : k = 0 ∨ k = 1 ∨ k = 2 ∨ k = 3 ∨ k = 4 ∨ k = 5 ∨ k = 6 ∨ k = 7 ∨ k = 8 ∨ k = 9 := by omega
+  rcases this with h|h|h|h|h|h|h|h|h|h <;> subst h <;> exact ⟨by decide, by decide⟩
+
+theorem toDigitsCore_head (fuel n : Nat) (ds : List Char)
+    (h : (∃ c tl, ds = c :: tl ∧ plainHead c) ∨ fuel ≠ 0) :
+    ∃ c tl, Nat.toDigitsCore 10 fuel n ds = c :: tl ∧ plainHead c := by
+  induction fuel generalizing n ds with
+  | zero =>
+    rcases h with h | h
+    · simpa [Nat.toDigitsCore] using h
+    · exact absurd rfl h
+  | succ f ih =>
+    unfold Nat.toDigitsCore
+    simp only
+    split
+    · exact ⟨_, _, rfl, digitChar_plain _ (Nat.mod_lt _ (by decide))⟩
+    · exact ih _ _ (Or.inl ⟨_, _, rfl, digitChar_plain _ (Nat.mod_lt _ (by decide))⟩)
+
+theorem toDigits_head (n : Nat) : ∃ c tl, Nat.toDigits 10 n = c :: tl ∧ plainHead c :=
+  toDigitsCore_head (n + 1) n [] (Or.inr (Nat.succ_ne_zero n))
+
+theorem sniff_plain_head (c : Char) (tl : List Char) (h : plainHead c) :
+    sniffMayBeMarkup (c :: tl) = false := by
+  unfold sniffMayBeMarkup
+  have : skipSniffWs ((c :: tl).take 512) = c :: tl.take 511 := by
+    simp [List.take, skipSniffWs, h.1]
+  rw [this]
+  split
+  · rename_i heq; injection heq with h1 _; exact absurd h1 h.2
+  · rfl
+
+theorem failureText_not_markup (code : Nat) (status msg : List Char) :
+    sniffMayBeMarkup (failureText code status msg) = false := by
+  obtain ⟨c, tl, hd, hp⟩ := toDigits_head code
+  unfold failureText
+  rw [hd, List.cons_append]
+  exact sniff_plain_head c _ hp
+
 end KM.Html
